@@ -12,7 +12,7 @@ import (
 func newGen(p *Program, sp *Specs, dropped map[string]bool) *Gen {
 	g := &Gen{P: p, Specs: sp, s: newScript(), heapSo: map[string]string{}, inits: map[string]*HV{}, frameI: map[string]bool{}, tags: map[string]int{},
 		dropped: dropped, touched: map[string]bool{}, trustedUse: map[string]bool{}, structs: map[string]*types.Struct{}, memSeen: map[string]bool{},
-		ghostVals: map[string]CV{}, paramVals: map[string]CV{}, exIDs: map[string]string{}, instTerms: map[string][]string{}, ifaceUse: map[string]bool{}}
+		ghostVals: map[string]CV{}, paramVals: map[string]CV{}, exIDs: map[string]string{}, instTerms: map[string][]string{}, ifaceUse: map[string]bool{}, heapRead: map[string]bool{}}
 	if g.dropped == nil {
 		g.dropped = map[string]bool{}
 	}
@@ -92,9 +92,7 @@ func (g *Gen) genFunc(fs *FuncSpec) {
 		}
 		vars[gp.Name] = v
 		g.ghostVals[gp.Name] = v
-		if so != "Int" {
-			g.addInstTerm(so, v.S)
-		}
+		g.addInstTerm(so, v.S)
 	}
 	withAliases(vars, rename)
 	g.entry = st0
@@ -129,6 +127,24 @@ func (g *Gen) genFunc(fs *FuncSpec) {
 			asgBy[mv] = append(asgBy[mv], loc{heap: mv, ref: l.ref, all: l.all})
 		}
 	}
+	if len(fs.Defines) > 0 {
+		// a definitional clause is admissible only for a function that reads no memory: its result
+		// is then a function of its arguments alone
+		for _, h := range sortedKeys(g.heapRead) {
+			if h != "alloc" && !strings.HasPrefix(h, "ghost.") {
+				fail("contract %s: 'defines' on a function that reads memory (%s)", fs.Key, h)
+			}
+		}
+		for _, c := range fs.Defines {
+			e0 := &Env{g: g, st: st0, old: st0, vars: vars, pc: "true", hyp: true}
+			for k, nm := range names {
+				_ = k
+				_ = nm
+			}
+			_ = e0
+			_ = c
+		}
+	}
 	for n, r := range f.rets {
 		rv := map[string]CV{}
 		for k, v := range vars {
@@ -139,6 +155,10 @@ func (g *Gen) genFunc(fs *FuncSpec) {
 		}
 		withAliases(rv, rename)
 		env := &Env{g: g, st: r.st, old: st0, vars: rv, pc: r.pc, hyp: false, frame: f}
+		for _, c := range fs.Defines {
+			henv := &Env{g: g, st: r.st, old: st0, vars: rv, pc: r.pc, hyp: true}
+			g.s.assumeUnder(r.pc, henv.tr(c.E, true).S)
+		}
 		for _, u := range fs.UsesRet {
 			henv := &Env{g: g, st: r.st, old: st0, vars: rv, pc: r.pc, hyp: true}
 			g.useAxiom(henv, u)
